@@ -53,7 +53,7 @@ def check_split_index(rc: RuleCtx, rule: str, m: rm.LoopModel, tag: str, allow_m
     for g, idx in rm.index_cases(m):
         rest, c = split_const(idx)
         a = single_atom(rest)
-        if a is not None and a.name == "int" and allow_middle:
+        if a is not None and a.name in ("int", "floor") and allow_middle:
             continue       # zero-distance guard: any interior point is acceptable there (checked by R1)
         seen += 1
         good = False
